@@ -300,5 +300,92 @@ def connectSecondPass (rs : List Rule) : HMap := applyRules rs []
     the rules run -/
 def connectHeadMap (rs : List Rule) (h : HMap) : HMap := copyOver (applyRules rs h) (connectSecondPass rs)
 
+/-! ### Which responses the `--response-header` list sees
+
+  `command/run` `configureHeadersModifiers` wraps the response list in
+
+      if req := resp.Request; req != nil && req.Method == http.MethodConnect { return nil }
+
+  so what decides is the request `res.Request` names WHILE THE RESPONSE MODIFIERS RUN.  Every response
+  the client is sent is bound to the client's request when it comes into being (`roundTrip` sets
+  `res.Request = req`; `errorResponse`, `newConnectResponse` and `connectHTTP` build it for `req`) —
+  except one: the non-2xx answer of an upstream proxy to the CONNECT the proxy's own TRANSPORT sent for
+  a client's non-CONNECT request (`GET https://…` in absolute form, a request inside an intercepted
+  session).  `OnProxyConnectResponse` builds it for the transport's CONNECT; martian
+  `writeErrorResponse` (proxy_conn.go, proxy_handler.go) rebinds it (`res.Request = req`) and only
+  then runs the modifiers and writes it.  The order of these steps is a parameter, so that theorems can
+  say which orders keep the dispatch clause. -/
+
+/-- every kind of response a client can be sent -/
+inductive ResponseKind where
+  | origin             -- the origin's / upstream proxy's response to a forwarded non-CONNECT request, with a body
+  | originHeaderOnly   -- the same for HEAD, 204, 304
+  | switching          -- 101 to a forwarded request (the tunnel follows)
+  | localError         -- generated by the proxy for a non-CONNECT request (400 403 407 451 500 502 504)
+  | relayedRefusal     -- an upstream proxy's non-2xx answer to the TRANSPORT's CONNECT, relayed as the
+                       -- response to the client's non-CONNECT request
+  | connectOK          -- 200 to the client's CONNECT (tunnel established, or interception starts)
+  | connectRefusal     -- an upstream proxy's non-2xx answer to the CLIENT's CONNECT, relayed
+  | connectLocalError  -- generated by the proxy for the client's CONNECT
+  deriving DecidableEq, Repr
+
+def ResponseKind.all : List ResponseKind :=
+  [.origin, .originHeaderOnly, .switching, .localError, .relayedRefusal, .connectOK, .connectRefusal,
+   .connectLocalError]
+
+/-- the request of the CLIENT the response answers is a CONNECT -/
+def answersConnect : ResponseKind → Bool
+  | .connectOK | .connectRefusal | .connectLocalError => true
+  | _ => false
+
+def msgOf (k : ResponseKind) : Msg := if answersConnect k then .connectResponse else .response
+
+/-- the request `res.Request` can name -/
+inductive BoundTo where
+  | clientRequest | transportConnect
+  deriving DecidableEq, Repr
+
+/-- what `res.Request` names when the response comes into being -/
+def bornBoundTo : ResponseKind → BoundTo
+  | .relayedRefusal => .transportConnect        -- `OnProxyConnectResponse`: `NewResponse(code, body, connectReq)`
+  | _ => .clientRequest
+
+inductive WriteStep where
+  | rebind     -- `res.Request = req; proxyutil.SetProto(res, req)`
+  | modify     -- `p.modifyResponse(res)`
+  | write      -- `p.writeResponse(res)`
+  deriving DecidableEq, Repr
+
+/-- the order of martian `writeErrorResponse` -/
+def writeErrorOrder : List WriteStep := [.rebind, .modify, .write]
+
+/-- "bind once, right before the write": status line, framing, keep-alive and accounting come out the
+    same, the response modifiers see the transport's CONNECT -/
+def rebindBeforeWrite : List WriteStep := [.modify, .rebind, .write]
+
+/-- what `res.Request` names while the response modifiers run (a response that does not pass through
+    `writeErrorResponse` is born bound to the client's request, for which `rebind` changes nothing) -/
+def boundAtModify (order : List WriteStep) (k : ResponseKind) : BoundTo :=
+  if (order.takeWhile (fun s => s != .modify)).contains .rebind then .clientRequest else bornBoundTo k
+
+/-- the guard of `configureHeadersModifiers`' response modifier: `true` = the list is applied -/
+def modifierRuns (b : BoundTo) (k : ResponseKind) : Bool :=
+  match b with
+  | .transportConnect => false
+  | .clientRequest => !answersConnect k
+
+def rulesApplyToWith (order : List WriteStep) (k : ResponseKind) : Bool :=
+  modifierRuns (boundAtModify order k) k
+
+/-- does the `--response-header` list touch a response of kind `k` (the code's order) -/
+def rulesApplyTo (k : ResponseKind) : Bool := rulesApplyToWith writeErrorOrder k
+
+def ResponseKind.ofName : String → Option ResponseKind
+  | "origin" => some .origin | "origin-header-only" => some .originHeaderOnly
+  | "switching" => some .switching | "local-error" => some .localError
+  | "relayed-refusal" => some .relayedRefusal | "connect-ok" => some .connectOK
+  | "connect-refusal" => some .connectRefusal | "connect-local-error" => some .connectLocalError
+  | _ => none
+
 end C16
 end FwdVerif
